@@ -20,7 +20,7 @@ CHUNK = 6
 
 SIZES = [1, 39, 255, 256, 2294, 2295, 4600, 65535]
 ORIGINS = [None, 0, 0x10, 0x0E00, 0xFFF0, 0x553C, 0x3C55]      # the last two spell the tape's block marker $55 $3C
-NAMS = [None, "P", "HELLO", "EIGHTCHR", "NINECHARS", "TWELVECHARS1", "hello", "MixEd", "lower678", "a"]
+NAMS = [None, "P", "HELLO", "EIGHTCHR", "NINECHARS", "TWELVECHARS1", "hello", "MixEd", "low0r670", "0a"]       # the last two hold the digit 0
 CLINAMES = [None, "CLINAME", "cli"]
 ENDS = ["none", "bare", "start", "mid"]
 SUBSETS = [s for n in (1, 2, 3) for s in itertools.combinations(("bin", "cas", "dsk"), n)]
@@ -71,7 +71,7 @@ def cases(tier, seed):
                 continue
             if origin is None and size > 0xFFFF:
                 continue
-            nams = NAMS if (thorough or size in (1, 39)) else [None, "HELLO", "NINECHARS", "lower678"]
+            nams = NAMS if (thorough or size in (1, 39)) else [None, "HELLO", "NINECHARS", "low0r670"]
             for nam in nams:
                 clin = CLINAMES if (thorough or size in (1, 39)) else [None, "CLINAME"]
                 for cn in clin:
